@@ -177,7 +177,189 @@ def property_faults(res):
                                       f"[{'async' if asyn else 'sync'}] {msg}")
 
 
+class Abort(BaseException):
+    """An application-defined BaseException (like KeyboardInterrupt / SystemExit / CancelledError
+    it is not an Exception subclass)."""
+
+
+def _base_excs():
+    import asyncio
+    return {"Abort": Abort, "KeyboardInterrupt": KeyboardInterrupt, "SystemExit": SystemExit,
+            "CancelledError": asyncio.CancelledError}
+
+
+BE_PHASES = ("v", "g", "before_go", "on_exit_a", "on_go", "on_enter_b", "after_go")
+BE_ENGINES = ("sync", "sync-nonrtc", "async", "async-cancel")
+
+
+def base_exception_case(engine, phase, exc_name):
+    """`pre` (internal, in a) queues `go` and `nxt` from its `on` callback; `go` (a -> b) fails in `phase`
+    with a BaseException that is not an Exception; `nxt` is still waiting at that moment.
+    engine 'async-cancel': instead of raising, the callback of `phase` suspends and the task
+    running the event is cancelled from outside (a timeout)."""
+    import asyncio
+
+    from statemachine import State, StateMachine
+    from statemachine.factory import StateMachineMetaclass
+    asyn = engine.startswith("async")
+    exc_cls = _base_excs()[exc_name]
+    log = []
+    gate = {}
+    ns = {}
+    a_ = "async " if asyn else ""
+    aw = "await " if asyn else ""
+    src = f"""
+{a_}def on_pre(self):
+    log.append('on_pre')
+    r1 = {aw}self.send('go')
+    r2 = {aw}self.send('nxt')
+    log.append(('nested', r1, r2))
+    return 'pre-result'
+{a_}def on_nxt(self):
+    log.append('on_nxt')
+    return 'nxt-result'
+{a_}def on_probe(self):
+    log.append('on_probe')
+    return 'probe-result'
+"""
+    for ph in BE_PHASES:
+        ret = "True" if ph in ("g",) else "'" + ph + "'"
+        if ph == phase and engine == "async-cancel":
+            body = ("    gate['reached'] = True\n"
+                    "    await gate['fut']\n")
+        elif ph == phase:
+            body = "    raise EXC('boom')\n"
+        else:
+            body = ""
+        src += f"{a_}def {ph}(self):\n    log.append('{ph}')\n{body}    return {ret}\n"
+    exec(src, {"log": log, "EXC": exc_cls, "gate": gate}, ns)   # noqa: S102 - generated source
+    a = State(initial=True)
+    b = State()
+    c = State()
+    body = {"a": a, "b": b, "c": c,
+            "pre": a.to.itself(internal=True, on="on_pre"),
+            "go": a.to(b, validators="v", cond="g"),
+            "nxt": a.to(c) | b.to(c),
+            "probe": a.to.itself(internal=True, on="on_probe") |
+            b.to.itself(internal=True, on="on_probe") | c.to.itself(internal=True, on="on_probe")}
+    body.update(ns)
+    cls = StateMachineMetaclass("BE", (StateMachine,), body)
+    want_state = "b" if phase in ("on_enter_b", "after_go") else "a"
+    out = {}
+
+    def verdict(sm, caught, probe_result):
+        if not isinstance(caught, exc_cls):
+            return (f"the {exc_name} raised in {phase} did not reach the caller: "
+                    f"{'returned normally' if caught is None else repr(caught)}")
+        eng = sm._engine
+        if sm.current_state_value != want_state:
+            return (f"state after {exc_name} in {phase} is {sm.current_state_value}, "
+                    f"expected {want_state}")
+        if "on_nxt" in log:
+            return (f"the event queued behind the failed one ran later (log: "
+                    f"{[x for x in log if isinstance(x, str)][-6:]})")
+        if probe_result != "probe-result":
+            return (f"the next event sent after the failure returned {probe_result!r} instead of "
+                    f"its own result")
+        if len(eng._external_queue):
+            return f"{len(eng._external_queue)} event(s) left in the queue"
+        return None
+
+    if not asyn:
+        sm = cls(rtc=(engine == "sync"))
+        caught = None
+        try:
+            sm.send("pre")
+        except BaseException as e:   # noqa: BLE001
+            caught = e
+        queue_left = len(sm._engine._external_queue)
+        try:
+            pr = sm.send("probe")
+        except BaseException as e:   # noqa: BLE001
+            pr = e
+        msg = verdict(sm, caught, pr)
+        if msg is None and queue_left:
+            msg = f"{queue_left} event(s) stayed queued after the failure"
+        return msg
+
+    async def main():
+        sm = cls()
+        await sm.activate_initial_state()
+        caught = None
+        if engine == "async-cancel":
+            gate["fut"] = asyncio.get_running_loop().create_future()
+            t = asyncio.ensure_future(sm.send("pre"))
+            for _ in range(50):
+                await asyncio.sleep(0)
+                if gate.get("reached"):
+                    break
+            if not gate.get("reached"):
+                return "harness: the suspending callback was never reached"
+            t.cancel()
+            try:
+                await t
+            except BaseException as e:   # noqa: BLE001
+                caught = e
+        else:
+            try:
+                await sm.send("pre")
+            except BaseException as e:   # noqa: BLE001
+                caught = e
+        queue_left = len(sm._engine._external_queue)
+        try:
+            pr = await sm.send("probe")
+        except BaseException as e:   # noqa: BLE001
+            pr = e
+        msg = verdict(sm, caught, pr)
+        if msg is None and queue_left:
+            msg = f"{queue_left} event(s) stayed queued after the failure"
+        return msg
+
+    loop = asyncio.new_event_loop()
+    try:
+        return loop.run_until_complete(main())
+    finally:
+        loop.close()
+
+
+def base_exception_cases():
+    out = []
+    for engine in BE_ENGINES:
+        for phase in BE_PHASES:
+            if engine == "async-cancel":
+                out.append((engine, phase, "CancelledError"))
+                continue
+            for exc_name in _base_excs():
+                if engine == "async" and exc_name in ("KeyboardInterrupt", "SystemExit"):
+                    # asyncio itself re-raises these out of the event loop from whatever task
+                    # they occur in: there is no "outermost caller" left to observe
+                    continue
+                out.append((engine, phase, exc_name))
+    return out
+
+
+def base_exceptions(res):
+    for (engine, phase, exc_name) in base_exception_cases():
+        res.stats["evaluations"] += 1
+        res.hist["base-exception"] += 1
+        try:
+            with deadline(30):
+                msg = base_exception_case(engine, phase, exc_name)
+        except Hang:
+            msg = "hung"
+        if msg:
+            res.violation({"category": "base-exception", "engine": engine, "exc": exc_name},
+                          {"base_exception": [engine, phase, exc_name]},
+                          f"[{engine}] {exc_name} (a BaseException that is not an Exception) in "
+                          f"{phase} of a queued event: {msg}")
+
+
 def worker(block):
+    if block[0] == "base-exceptions":
+        res = BlockResult()
+        base_exceptions(res)
+        res.stats["states"] += 1
+        return res
     if block[0] == "property-faults":
         res = BlockResult()
         with deadline(300):
@@ -264,7 +446,8 @@ def run(tier, seed):
     rep = Report(PID, tier, seed, level="fault_enumeration")
     n = len(base_scenarios(tier))
     step = 6 if tier == "quick" else 4
-    blocks = [(tier, i, min(i + step, n)) for i in range(0, n, step)] + [("property-faults",)]
+    blocks = [(tier, i, min(i + step, n)) for i in range(0, n, step)] + [("property-faults",),
+                                                                      ("base-exceptions",)]
     total, capped = run_blocks(worker, blocks, seed=seed)
     rep.add_violations(total.violations, total.hist_sig)
     rep.harness_errors = total.stats.get("harness_errors", 0)
@@ -287,12 +470,17 @@ def run(tier, seed):
         "violations_total": total.stats.get("violations_total", 0),
     }
     rep.assumptions = ["reference fault semantics in mc/ref.py",
-                       "faults are Exception subclasses (BaseException is outside the statement)",
+                       "the reference-driven fault enumeration injects Exception subclasses; "
+                       "BaseException-only classes (application-defined, KeyboardInterrupt, "
+                       "SystemExit, CancelledError incl. real task cancellation) are covered by the "
+                       "base-exceptions sub-check at every phase of a queued event",
                        "siblings of a failing callback inside its group may or may not run"]
     return rep.finish(exhaustive=not capped)
 
 
 def replay(sc):
+    if "base_exception" in sc:
+        return base_exception_case(*sc["base_exception"])
     if "property_fault" in sc:
         res = BlockResult()
         property_faults(res)
